@@ -46,7 +46,7 @@ def judge_pairs(run, V):
         # --- on the model: the two machines agree (a failure here means the model or the fragment is wrong: tool error)
         if rs["status"] == "ok":
             stats["model_checked"] += 1
-            if rl["status"] != "ok" or not G.isomorphic(G.from_spec(rs["g"]), G.from_spec(rl["g"])):
+            if rl["status"] != "ok" or G.isomorphic(G.from_spec(rs["g"]), G.from_spec(rl["g"])) is False:
                 raise C.ToolError("model-level disagreement of the strict and lazy machines inside the fragment on %s "
                                   "(strict ok, lazy %s %s)" % (key, rl["status"], rl.get("kind")))
         elif rs["status"] == "err" and rs["kind"] in ORDER_INDEPENDENT:
